@@ -10,6 +10,7 @@ import (
 	"os"
 	"sync"
 	"syscall"
+	"time"
 
 	"github.com/aws/aws-sdk-go/aws"
 	"github.com/aws/aws-sdk-go/aws/awserr"
@@ -55,6 +56,10 @@ type fakeS3 struct {
 	shortBody            bool // the body ends early with io.ErrUnexpectedEOF although ContentLength announced everything
 	puts                 int
 	gets                 int
+	// holdGet, when non-nil, makes the next GetObject look its object up, announce itself on getArrived and
+	// then withhold its response until holdGet is closed (a slow response that is already decided)
+	holdGet    chan struct{}
+	getArrived chan struct{}
 }
 
 var errFakePut = errors.New("fake s3: injected PutObject failure")
@@ -88,7 +93,18 @@ func (f *fakeS3) DeleteObjectWithContext(ctx aws.Context, in *s3.DeleteObjectInp
 
 func (f *fakeS3) GetObjectWithContext(ctx aws.Context, in *s3.GetObjectInput, opts ...request.Option) (*s3.GetObjectOutput, error) {
 	f.mu.Lock()
-	defer f.mu.Unlock()
+	out, err := f.getLocked(in)
+	hold, arrived := f.holdGet, f.getArrived
+	f.holdGet, f.getArrived = nil, nil
+	f.mu.Unlock()
+	if hold != nil {
+		close(arrived)
+		<-hold
+	}
+	return out, err
+}
+
+func (f *fakeS3) getLocked(in *s3.GetObjectInput) (*s3.GetObjectOutput, error) {
 	f.gets++
 	if f.failGet {
 		return nil, errFakeGet
@@ -195,7 +211,7 @@ func genC18(t *rapid.T, tier string) C18Case {
 	}
 	kinds := []string{"store", "store", "store", "restore", "cstore", "load", "load", "load", "loadmissing"}
 	if c.Backend == "s3fake" {
-		kinds = append(kinds, "putfail", "putfailonce", "getfail", "bodyfail", "bodyshort")
+		kinds = append(kinds, "putfail", "putfailonce", "getfail", "bodyfail", "bodyshort", "heldload")
 		c.Repoint = rapid.IntRange(0, 3).Draw(t, "repoint") == 0
 	}
 	if c.Backend == "file" {
@@ -345,6 +361,64 @@ func runC18(c C18Case, o *run.Obs) error {
 			if err := load(when, missing); err != nil {
 				return err
 			}
+		case "heldload":
+			// a Load of a name not written yet is under way (its lookup is done, its response is held back); the name is
+			// then written successfully; a Load that STARTS after that write must return the bytes
+			if _, ok := model[name]; ok {
+				continue
+			}
+			hold, arrived := make(chan struct{}), make(chan struct{})
+			fake.mu.Lock()
+			fake.holdGet, fake.getArrived = hold, arrived
+			fake.mu.Unlock()
+			type res struct {
+				b   []byte
+				err error
+			}
+			r1 := make(chan res, 1)
+			go func() {
+				var r res
+				_ = safely(func() { r.b, r.err = p.Load(ctx, name) })
+				r1 <- r
+			}()
+			select {
+			case <-arrived:
+			case <-time.After(3 * time.Second):
+				close(hold)
+				return fmt.Errorf("harness: the first Load never reached the S3 client")
+			}
+			if err := p.Store(ctx, name, payload); err != nil {
+				close(hold)
+				return fmt.Errorf("%s %s: Store(%q) while a Load of that name is pending failed: %v", desc, when, name, err)
+			}
+			model[name] = payload
+			r2 := make(chan res, 1)
+			go func() {
+				var r res
+				_ = safely(func() { r.b, r.err = p.Load(ctx, name) })
+				r2 <- r
+			}()
+			var second res
+			select {
+			case second = <-r2:
+				close(hold)
+			case <-time.After(60 * time.Millisecond):
+				// the second Load waits for something: let the held response go and see what it returns
+				close(hold)
+				select {
+				case second = <-r2:
+				case <-time.After(10 * time.Second):
+					return fmt.Errorf("harness: a Load did not return within 10 s")
+				}
+			}
+			first := <-r1
+			if first.err == nil && !bytes.Equal(first.b, payload) {
+				return fmt.Errorf("%s %s: the Load that was pending during the write returned %d bytes and no error; the name holds %d bytes", desc, when, len(first.b), len(payload))
+			}
+			if second.err != nil || !bytes.Equal(second.b, payload) {
+				return fmt.Errorf("%s %s: Load(%q) started after a successful Store of that name (while an older Load of it was still pending) returned %d bytes, err=%v; %d bytes were written", desc, when, name, len(second.b), second.err, len(payload))
+			}
+			o.Label("load-overlapping-a-write")
 		case "putfail":
 			fake.mu.Lock()
 			fake.failPut = true
